@@ -143,9 +143,7 @@ def configure_classes():
                       ('_k', 'pl_k', Q), ('_x', 'pl_x', O('Vector3D')), ('_y', 'pl_y', O('Vector3D'))])
     c['Arc2D'] = rec('Arc2R', 'mkArc2', [('_c', 'a2_c', O('Point2D')), ('_r', 'a2_r', Q),
                                          ('_a1', 'a2_a1', Q), ('_a2', 'a2_a2', Q)])
-    c['Arc3D'] = rec('Arc3R', 'mkArc3', [('_plane', 'a3_plane', O('Plane')), ('_radius', 'a3_r', Q),
-                                         ('_a1', 'a3_a1', Q), ('_a2', 'a3_a2', Q)],
-                     prop_fields={'plane': '_plane', 'radius': '_radius', 'a1': '_a1', 'a2': '_a2'})
+    c['Arc3D'] = rec('Arc3R', 'mkArc3', [('_plane', 'a3_plane', O('Plane')), ('_arc2d', 'a3_arc2d', O('Arc2D'))])
     c['Sphere'] = rec('SphereR', 'mkSphere', [('_center', 'sp_c', O('Point3D')), ('_radius', 'sp_r', Q)])
     c['Cone'] = rec('ConeR', 'mkCone', [('_vertex', 'co_vertex', O('Point3D')), ('_axis', 'co_axis', O('Vector3D')),
                                         ('_angle', 'co_angle', Q)])
@@ -274,6 +272,26 @@ def balanced(s):
             if d < 0:
                 return False
     return d == 0
+
+
+def dead_let_elim(body):
+    """drop `let x := e in` lines whose variable is never used afterwards (simple lets on one line)"""
+    changed = True
+    while changed:
+        changed = False
+        lines = body.split('\n')
+        for i, ln in enumerate(lines):
+            m = re.match(r"^(\s*)let ([A-Za-z_][A-Za-z0-9_']*) := (.*) in$", ln)
+            if not m or not balanced(m.group(3)):
+                continue
+            rest = '\n'.join(lines[i + 1:])
+            # scope ends where parentheses opened before close; conservative: look at the whole rest
+            if not re.search(r"(?<![A-Za-z0-9_'])%s(?![A-Za-z0-9_'])" % re.escape(m.group(2)), rest):
+                del lines[i]
+                body = '\n'.join(lines)
+                changed = True
+                break
+    return body
 
 
 COQ_RESERVED = {'at', 'in', 'as', 'fun', 'let', 'match', 'end', 'if', 'then', 'else', 'with', 'return',
@@ -494,6 +512,8 @@ class FuncTranslator:
         self.ret_ty = self.unify_returns(self.ret_seen)
         self.pass_no = 2
         body = self.block(list(fn.body), dict(env))
+        body = dead_let_elim(body)
+        self.oracles = {o for o in ORACLES if re.search(r'\b%s\b' % o, body)}
         orc = ['(%s : %s)' % (o, ORACLE_TY[o]) for o in ORACLES if o in self.oracles]
         text = 'Definition %s %s : %s :=\n  %s.\n' % (name, ' '.join(orc + coq_params), self.ret_ty.coq(), body)
         return text, self.ret_ty
@@ -682,6 +702,41 @@ class FuncTranslator:
 
     def expr_stmt(self, st, rest, env):
         c = st.value
+        # Base.__init__(self, a, b) inside __init__: inline the base initialiser
+        if self.is_init and isinstance(c, ast.Call) and isinstance(c.func, ast.Attribute) and c.func.attr == '__init__' \
+                and isinstance(c.func.value, ast.Name) and c.args and isinstance(c.args[0], ast.Name) and c.args[0].id == 'self':
+            base = c.func.value.id
+            found = CLASSES.find_member(base, '__init__')
+            if found is None:
+                self.fail(st, 'no __init__ on %s' % base)
+            owner, mod, fn = found
+            params = [a.arg for a in fn.args.args][1:]
+            defaults = [None] * (len(params) - len(fn.args.defaults)) + list(fn.args.defaults)
+            args = [self.expr(a, env) for a in c.args[1:]]
+            env_in = {k: v for k, v in env.items() if k == 'self' or k.startswith('self.')}
+            pre = ''
+            for i, p in enumerate(params):
+                if i < len(args):
+                    v = args[i]
+                elif defaults[i] is not None:
+                    v = self.expr(defaults[i], {})
+                else:
+                    self.fail(st, 'missing base init argument')
+                pp, env_in = self.bind(p, v, env_in)
+                pre += pp
+            saved_mod = self.mod
+            self.mod = mod
+            try:
+                body = [b for b in fn.body]
+                live = [n for n in assigned_names(body) if n.startswith('self.')]
+                s_, env_out = self.branch_tuple(body, env_in, live)
+            finally:
+                self.mod = saved_mod
+            env2 = dict(env)
+            for k, v in env_out.items():
+                if k.startswith('self.'):
+                    env2[k] = v
+            return pre + s_ + self.block(rest, env2)
         if isinstance(c, ast.Call) and isinstance(c.func, ast.Attribute) and isinstance(c.func.value, ast.Name):
             nm, meth = c.func.value.id, c.func.attr
             if nm in env and isinstance(env[nm], Val) and isinstance(env[nm].t, TLst):
@@ -795,8 +850,19 @@ class FuncTranslator:
         if not contains_return(st.body) and not contains_return(st.orelse) and rest:
             # merge form: only assignments
             names = [n for n in assigned_names(st.body + st.orelse)]
+            used = set()
+            for r_ in rest:
+                for nd in ast.walk(r_):
+                    if isinstance(nd, ast.Name):
+                        used.add(nd.id)
+                    elif isinstance(nd, ast.Attribute) and isinstance(nd.value, ast.Name) and nd.value.id == 'self':
+                        used.add('self.' + nd.attr)
+            if self.is_init:
+                used |= {'self.' + f[0] for f in CLASSES.root_cfg(self.self_cls)['fields']}
             live = []
             for n in names:
+                if n not in used:
+                    continue
                 in_a = n in assigned_names(st.body) or n in env
                 in_b = n in assigned_names(st.orelse) or n in env
                 if in_a and in_b:
@@ -863,6 +929,11 @@ class FuncTranslator:
                     if t_ not in tests:
                         tests.append(t_)
                 c = ' || '.join(paren(t) for t in tests)
+                hb = st.handlers[0].body
+                if hb and isinstance(hb[0], ast.Raise):
+                    # the handler only re-raises: division by zero is an error exit, theorems are
+                    # about normal returns (precondition: the divisors are non-zero)
+                    return self.block(list(st.body) + rest, env)
                 a = self.block(list(st.handlers[0].body) + rest, env)
                 b = self.block(list(st.body) + rest, env)
                 return 'if %s then %s\n  else %s' % (c, paren(a), paren(b))
@@ -872,6 +943,8 @@ class FuncTranslator:
         self.fail(st, 'try statement')
 
     def for_stmt(self, st, rest, env):
+        if all(isinstance(b, (ast.Assert, ast.Pass)) for b in st.body):
+            return self.block(rest, env)
         if st.orelse or contains_return(st.body):
             self.fail(st, 'for loop with return/break/continue/else')
         it = self.iterable(st.iter, env)
@@ -1061,6 +1134,12 @@ class FuncTranslator:
         return Val('(' + ' && '.join(paren(p) for p in parts) + ')', B)
 
     def compare1(self, l, op, r, env, node):
+        if isinstance(op, (ast.Is, ast.IsNot)) and isinstance(r, ast.Constant) and isinstance(r.value, bool):
+            v = self.expr(l, env)
+            if isinstance(v.t, TB):
+                pos = (r.value is True) == isinstance(op, ast.Is)
+                return v.s if pos else 'negb %s' % paren(v.s)
+            self.fail(node, 'is True/False on %r' % v.t)
         if isinstance(op, (ast.Is, ast.IsNot)):
             sc = self.static_cond(ast.Compare(left=l, ops=[op], comparators=[r]), env)
             if sc is not None:
@@ -1226,6 +1305,10 @@ class FuncTranslator:
                     return Val('%s %s' % (acc, paren(v.s)), ty)
             if attr == '__class__':
                 return Val('tt', TCls(cls))
+            if attr.startswith('_') and not attr.startswith('__'):
+                d = self.derived_slot(v, cls, attr, node)
+                if d is not None:
+                    return d
             found = CLASSES.find_member(cls, attr)
             if found is None:
                 self.fail(node, 'no attribute %s on %s' % (attr, cls))
@@ -1246,6 +1329,37 @@ class FuncTranslator:
             self.oracles.update(orcs)
             return Val('%s %s' % (' '.join([name] + orcs), paren(v.s)), rty)
         self.fail(node, 'attribute %s of %r' % (attr, v.t))
+
+    def derived_slot(self, v, cls, attr, node):
+        """a slot that __init__ fills eagerly from the constructor arguments
+        (e.g. Arc2D._cos_a1 = math.cos(a1)): re-evaluate its defining expression on the fields"""
+        found = CLASSES.find_member(cls, '__init__')
+        if found is None:
+            return None
+        owner, mod, fn = found
+        cfg = CLASSES.root_cfg(cls)
+        env = {}
+        target = None
+        for st in fn.body:
+            if isinstance(st, ast.Assign) and len(st.targets) == 1 and isinstance(st.targets[0], ast.Attribute) \
+                    and isinstance(st.targets[0].value, ast.Name) and st.targets[0].value.id == 'self':
+                slot = st.targets[0].attr
+                if isinstance(st.value, ast.Name):
+                    for s2, acc, ty in cfg['fields']:
+                        if s2 == slot:
+                            env[st.value.id] = Val('%s %s' % (acc, paren(v.s)), ty)
+                if slot == attr:
+                    target = st.value
+        if target is None:
+            return None
+        if isinstance(target, ast.Constant) and target.value is None:
+            return Val('tt', NONE)
+        saved = self.mod
+        self.mod = mod
+        try:
+            return self.expr(target, env)
+        finally:
+            self.mod = saved
 
     def call_method(self, recv, meth, args, node):
         cls = recv.t.cls
